@@ -124,6 +124,8 @@ func sxgMut(args []string) error {
 			if curve == "p384" {
 				sp.rs, sp.payload = 1, randBytes(r, 3)
 			}
+			sp.resph.Add("Content-Security-Policy", "default-src 'none'")
+			sp.resph.Add("X-Kind", "k")
 			var signed []map[string]interface{}
 			e := buildRecorded(sp, kc, &signed)
 			var fb bytes.Buffer
@@ -158,6 +160,14 @@ func sxgMut(args []string) error {
 				}
 				if thorough || i%2 == 0 {
 					try(file[:i], "truncate")
+				}
+			}
+			// structure-aware edits of the header block: a header NAME respelled with characters that some case mapping
+			// folds onto the signed spelling (U+0130 -> i, U+212A -> k), upper-cased, or padded; lengths fixed up
+			for _, rk := range [][2]string{{"content-security-policy", "content-secur\u0130ty-policy"}, {"x-kind", "x-\u212aind"}, {"x-kind", "x-Kind"},
+				{"x-kind", "x-kind "}, {"content-security-policy", "content-security-pol\u0131cy"}, {"x-a", "x-\u00e5"}} {
+				if m := rekeyFile(file, string(ver), rk[0], rk[1]); m != nil {
+					try(m, "header name respelled")
 				}
 			}
 			// in-memory field edits
@@ -276,6 +286,45 @@ func sxgMut(args []string) error {
 		}
 	}
 	return nil
+}
+
+// rekeyFile replaces the CBOR byte-string key oldKey of the header block by newKey and fixes the key's head and the
+// headerLength field (both keys shorter than 24 bytes... or not: heads up to 255 are handled).  nil if not found.
+func rekeyFile(file []byte, ver string, oldKey, newKey string) []byte {
+	p := 8
+	if ver != "1b1" {
+		if len(file) < 10 {
+			return nil
+		}
+		p = 10 + int(file[8])<<8 + int(file[9])
+	}
+	if len(file) < p+6 {
+		return nil
+	}
+	sl := int(file[p])<<16 | int(file[p+1])<<8 | int(file[p+2])
+	hl := int(file[p+3])<<16 | int(file[p+4])<<8 | int(file[p+5])
+	hs := p + 6 + sl
+	if len(file) < hs+hl {
+		return nil
+	}
+	head := func(n int) []byte {
+		if n < 24 {
+			return []byte{byte(0x40 + n)}
+		}
+		return []byte{0x58, byte(n)}
+	}
+	oldEnc := append(head(len(oldKey)), oldKey...)
+	i := bytes.Index(file[hs:hs+hl], oldEnc)
+	if i < 0 {
+		return nil
+	}
+	newEnc := append(head(len(newKey)), newKey...)
+	out := append([]byte{}, file[:hs+i]...)
+	out = append(out, newEnc...)
+	out = append(out, file[hs+i+len(oldEnc):]...)
+	nh := hl + len(newEnc) - len(oldEnc)
+	out[p+3], out[p+4], out[p+5] = byte(nh>>16), byte(nh>>8), byte(nh)
+	return out
 }
 
 func init() { register("sxg-mut", sxgMut) }
